@@ -336,7 +336,67 @@ def signature(inst, problems):
     return f"{op}|{shape}|{problems[0][0]}"
 
 
+def resub_cases(tier, seed):
+    """Absolute due times and re-subscription: the same delay(absolute T) / delay_subscription(absolute T) observable is
+    subscribed at several instants; every subscription must be shifted by max(0, T - its own subscription instant)."""
+    _, sub = seed_params(seed)
+    tls = [[(10, "N", 1), (20, "N", 2), (30, "C", None)], [(10, "N", 1), (20, "E", "E")]] + ([[(5, "N", 1), (5, "N", 2), (15, "C", None)]] if tier != "quick" else [])
+    for op in ("delay", "delay_subscription"):
+        for d in (10, 25, 60):
+            for subs in ((0, 100), (0, 5), (0, 40, 200)):
+                for tl in tls:
+                    yield {"op": op, "d": d, "subs": list(subs), "tl": tl, "sub": sub}
+
+
+def judge_resub(c):
+    from reactivex import operators as ops
+
+    env = vt.Env()
+    T = c["sub"] + c["d"]
+    src = env.cold("src", c["tl"])
+    f = ops.delay if c["op"] == "delay" else ops.delay_subscription
+    obs = src.pipe(f(env.sched.to_datetime(T), scheduler=env.sched))
+    recs = []
+    for off in c["subs"]:
+        r = env.recorder(f"out@{off}")
+        recs.append((c["sub"] + off, r))
+        env.subscribe_at(c["sub"] + off, obs, r)
+    env.run(horizon=c["sub"] + 900)
+    problems = []
+    for (s_i, r) in recs:
+        shiftd = max(0, T - s_i)
+        exp = []
+        for (t, k, v) in c["tl"]:
+            if k == "E" and c["op"] == "delay":
+                exp.append((s_i + t, "E"))  # an error is delivered immediately, dropping what is pending
+                exp = [e for e in exp if e[0] <= s_i + t and not (e[1] == "N" and e[0] > s_i + t)]
+                break
+            exp.append((s_i + t + shiftd, k))
+        if c["op"] == "delay" and any(k == "E" for (_, k, _) in c["tl"]):
+            te = s_i + next(t for (t, k, _) in c["tl"] if k == "E")
+            exp = [(tt, k) for (tt, k) in exp if k == "E" or tt < te] + []
+            exp = sorted(set(exp), key=lambda e: (e[0], e[1] != "N"))
+        got = [(t, k) for (t, k, _) in r.events()]
+        if c["op"] == "delay" and any(k == "E" for (_, k, _) in c["tl"]):
+            # elements due in the very instant of the error may or may not overtake it (R3)
+            ok = got == exp or got == [e for e in exp if not (e[1] == "N" and e[0] == te)]
+        else:
+            ok = got == exp
+        if not ok:
+            problems.append(("resubscribed-absolute-due-time", f"{c['op']}(absolute {T}) subscribed at {s_i}: observed {got}, expected {exp} (shift max(0, T - subscription instant) = {shiftd})"))
+    if env.sched.escaped:
+        problems.append(("escaped", repr(env.sched.escaped[0][1])))
+    return problems
+
+
 def shard(part: core.Part, shard_i, nshards, tier, seed, deadline):
+    if shard_i == 0:
+        for c in resub_cases(tier, seed):
+            probs = judge_resub(c)
+            part.case(("resub", repr(c)), True, outcome=("resub", c["op"], bool(probs)))
+            part.count("op:" + c["op"] + ":absolute-resubscribed")
+            if probs:
+                part.violation(f"{c['op']}|abs|{probs[0][0]}", f"{c['op']} with an absolute due time, subscriptions at {c['subs']}: {probs[0][1]}", dict(c, mode="resub", tier=tier, seed=seed), problems=[p[1] for p in probs])
     for (inst, tl) in core.shard_iter(all_cases(tier, seed), shard_i, nshards):
         if part.evals % 128 == 0 and time.time() > deadline:
             part.complete = False
@@ -369,6 +429,12 @@ def run(ctx: core.Ctx):
 
 
 def replay(case):
+    if case.get("mode") == "resub":
+        c = dict(case)
+        c["tl"] = [tuple(x) for x in c["tl"]]
+        probs = judge_resub(c)
+        print("re-subscription case:", c)
+        return [{"signature": f"{c['op']}|abs|{p[0]}", "what": p[1]} for p in probs]
     tl = [tuple(x) for x in case["timeline"]]
     for inst in instances(case["tier"], case["seed"]):
         if inst.iid == case["instance"]:
